@@ -1,4 +1,5 @@
 //@ tu: libxcm/core/xcm_addr.c
+//@ replay: addr_native.py
 //@ enforce: host_port_parse
 //@ replace: proto_addr_parse host_parse
 //@ pre-unwind: strrchr.0:581 strcmp.0:34
